@@ -74,9 +74,63 @@ func (p *Program) knownNonNil(v ssa.Value) bool {
 			}
 		}
 	case *ssa.Call:
-		return calleeIs(x, "errors", "", "New") || calleeIs(x, "fmt", "", "Errorf")
+		if calleeIs(x, "errors", "", "New") || calleeIs(x, "fmt", "", "Errorf") {
+			return true
+		}
+		// status.Error / status.Errorf with a constant code other than OK
+		if calleeIs(x, "google.golang.org/grpc/status", "", "Error") || calleeIs(x, "google.golang.org/grpc/status", "", "Errorf") {
+			if code, ok := intConst(x.Call.Args[0]); ok && code != 0 {
+				return true
+			}
+		}
+		// a module function whose every return yields a non-nil value for its single result
+		if f := x.Call.StaticCallee(); f != nil && IsModuleFunc(f) && f.Signature.Results().Len() == 1 {
+			return p.neverReturnsNil(f, 0)
+		}
+	case *ssa.Extract:
+		if call, ok := x.Tuple.(*ssa.Call); ok {
+			if f := call.Call.StaticCallee(); f != nil && IsModuleFunc(f) {
+				return p.neverReturnsNil(f, x.Index)
+			}
+		}
+	case *ssa.MakeInterface, *ssa.Alloc, *ssa.MakeMap, *ssa.MakeSlice, *ssa.MakeChan, *ssa.MakeClosure, *ssa.Function:
+		return true
 	}
 	return false
+}
+
+// neverReturnsNil: every return site of f yields a value known to be non-nil for result idx.
+func (p *Program) neverReturnsNil(f *ssa.Function, idx int) bool {
+	type key struct {
+		f   *ssa.Function
+		idx int
+	}
+	if p.nonNilMemo == nil {
+		p.nonNilMemo = map[interface{}]bool{}
+	}
+	k := key{f, idx}
+	if v, ok := p.nonNilMemo[k]; ok {
+		return v
+	}
+	p.nonNilMemo[k] = false // cycles: not known
+	if len(f.Blocks) == 0 {
+		return false
+	}
+	n := 0
+	for _, r := range returnsOf(f) {
+		if idx >= len(r.Results) {
+			return false
+		}
+		n++
+		if !p.knownNonNil(r.Results[idx]) {
+			return false
+		}
+	}
+	if n == 0 {
+		return false
+	}
+	p.nonNilMemo[k] = true
+	return true
 }
 
 // defaultInline: the callee is an unexported function or method (or a function literal) of the same package.
@@ -144,6 +198,9 @@ func (p *Program) View(fn *ssa.Function) *ssa.Function {
 
 // Orig maps a view back to the function it was made from (identity for ordinary functions).
 func (p *Program) Orig(fn *ssa.Function) *ssa.Function {
+	if fn == nil {
+		return nil
+	}
 	if vi, ok := p.views[fn]; ok {
 		return vi.res.Orig
 	}
